@@ -272,7 +272,12 @@ def run(ck, fb, fbd):
         want = ceq("find(%s.begin(), %s.end(), P0[1])" % (R, R), "%s.end()" % R, "!=")
         fs = {(s, pol) for s, pol, c in l.facts(b)}
         ok = o is not None and o[0] == "halffaces_of_halfedge" and o[1] == "P0[0]" and (want, True) in fs
-        if not ok and o is not None and o[0] == "halffaces_of_halfedge" and any("P0[1]" in s for s, p in fs) and not any(s.startswith("(find(") for s, p in fs):
+        if not ok and any(("edge_handle(P0[1])" in s_ or "P0[1].edge_handle()" in s_) for s_, p_ in fs):
+            # the second halfedge is reduced to its edge before it is looked for: a halfface that only contains the OPPOSITE
+            # halfedge would be returned as well
+            judge(False, l, n, "find_halfface(halfedges) looks for the second HALFEDGE in the candidate's own halfedge list - not for its edge (orientation of hes[1] dropped)", "find_halfface_hes:stripped")
+            continue
+        if not ok and o is not None and o[0] == "halffaces_of_halfedge" and any("P0[1]" in s for s, p in fs) and not any("find(" in s for s, p in fs):
             raise AnalysisBroken("%s: find_halfface(halfedges) tests the second halfedge in a form rule K.match does not know - re-audit" % l.f.where)
         judge(ok, l, n, "find_halfface(halfedges) returns a halfface incident to the first halfedge whose own halfedge list contains the second (origin %s)" % (o,), "find_halfface_hes")
 
